@@ -810,6 +810,7 @@ fn classify(case: &Case, out: &CaseRec) {
     rec.label(match o.mids {
         MidScheme::Numeric { .. } => "mids=numeric",
         MidScheme::Alpha => "mids=alpha",
+        MidScheme::Overlapping { .. } => "mids=overlapping",
         MidScheme::Absent => "mids=absent",
     });
     rec.label(match o.bundle {
